@@ -963,7 +963,7 @@ func c16Operands(vw *c14View, v ssa.Value, out map[ssa.Value]bool, depth int) {
 func c16R3(e *c16Env) {
 	const R = "C16.R3.cache-keying"
 	c := e.c
-	c.Expect(R, 12)
+	c.Expect(R, 13)
 	if !c14HasField(c.P, c16Pkg, "concurrentCache", "cache") || !c14HasField(c.P, c16Pkg, "concurrentCache", "status") ||
 		!c14HasField(c.P, c16Pkg, "cacheEntry", "scheme") || !c14HasField(c.P, c16Pkg, "cacheEntry", "tokens") {
 		c.LostAnchor(R, "~/registry/remote/auth.concurrentCache.{cache,status} / cacheEntry.{scheme,tokens}")
@@ -1118,6 +1118,30 @@ func c16R3(e *c16Env) {
 			c.Check(R, fn+"|token-only-after-scheme-match", f.Pos(), ok && n > 0,
 				ifelse(ok && n > 0, "every successful return has passed entry.scheme == scheme", "GetToken can return a token without the entry's scheme matching the requested scheme: a Basic credential string is sent as a Bearer token (or the reverse)"))
 		case "Set":
+			// the in-flight marker is removed only by the caller that performed the fetch
+			var first map[ssa.Value]bool
+			for _, oc := range vw.CallsTo("(*~/internal/syncutil.Once).Do") {
+				if r0 := ResultOf(oc, 0); r0 != nil {
+					if first == nil {
+						first = map[ssa.Value]bool{}
+					}
+					for a := range vw.StrictAliases(r0) {
+						first[a] = true
+					}
+				}
+			}
+			firstT, _ := vw.BoolTests(first)
+			nDel := 0
+			for _, call := range vw.Calls(isMapOp) {
+				op := strings.TrimPrefix(CalleeName(call), "(*sync.Map).")
+				if mapField(call) != tCC+".status" || !strings.Contains(op, "Delete") {
+					continue
+				}
+				nDel++
+				ok := len(firstT) > 0 && vw.MustPass(call.(ssa.Instruction), newCut().Edges(firstT...))
+				c.Check(R, fmt.Sprintf("%s|status.%s#%d|only-by-the-fetcher", fn, op, nDel), call.Pos(), ok,
+					ifelse(ok, "the in-flight marker is removed only on the edge where Once.Do reported that this caller ran the fetch", "the in-flight marker can be removed by a caller that did not perform the fetch (e.g. a waiter whose context was cancelled): the fetch still running is forgotten, the next request starts a second token fetch and the credential is sent twice instead of the waiters sharing one result"))
+			}
 			_, neq := schemeTests()
 			fresh := func(v ssa.Value) bool {
 				ls := vw.Leaves(v)
